@@ -81,11 +81,17 @@ def inner_projection(inner):
     return _sha(inner)
 
 
-def pgpy_encrypt(W, sc, msg, keyset):
+def pgpy_encrypt(W, sc, msg, keyset, n=0):
     pgpy = W.pgpy
     from pgpy.constants import SymmetricKeyAlgorithm
     cipher = SymmetricKeyAlgorithm(sc['cipher'])
-    sk = cipher.gen_key() if sc['supplied'] else None
+    sk = None
+    if sc['supplied']:
+        # caller-supplied session keys of every checksum class: random, all-zero (sum 0), low sum (< 256: one-octet checksum value),
+        # sum exactly 255 / 256, all-0xFF (largest sum)
+        klen = cipher.key_size // 8
+        sk = [cipher.gen_key(), bytes(klen), bytes(range(klen))[:klen] if klen <= 22 else b'\x01' * klen, b'\xff' + bytes(klen - 1),
+              b'\xff\x01' + bytes(klen - 2), b'\xff' * klen, cipher.gen_key()][n % 7]
     encm = msg
     first = True
     for r in sc['recips']:
@@ -130,7 +136,7 @@ def run(ctx):
         # ---- (a) PGPy -> PGPy with own keys
         own_pubs = {r: pgpy.PGPKey.from_blob(bytes(W.own[r].pubkey))[0] for r in sc['recips'] if r not in PW}
         try:
-            encm, _ = pgpy_encrypt(W, sc, msg, own_pubs)
+            encm, _ = pgpy_encrypt(W, sc, msg, own_pubs, n)
             blob = bytes(encm) if not sc['armor'] else str(encm)
             for r in sc['recips']:
                 rec = {'k': 'rt', 'scenario': sc, 'recipient': r, 'before': before}
@@ -146,7 +152,7 @@ def run(ctx):
         # ---- (b) PGPy -> independent decryptor, with foreign recipients
         try:
             fpubs = {r: W.foreign[r][1] for r in sc['recips'] if r not in PW}
-            encm, sk = pgpy_encrypt(W, sc, msg, fpubs)
+            encm, sk = pgpy_encrypt(W, sc, msg, fpubs, n + 3)
             fblob = bytes(encm)
         except Exception as ex:
             ev.append({'k': 'rt', 'scenario': sc, 'recipient': 'encrypt-to-foreign', 'before': before, 'raised': True, 'after': {}, 'exc': repr(ex)[:120]})
